@@ -241,6 +241,12 @@ func (c *checker) push(path, repo string, content []byte, rng *rand.Rand) error 
 			return err
 		}
 		_, err := c.reg.MountBlob(bg, src, repo, d.Digest)
+		if err == nil && rng.IntN(2) == 0 {
+			// the source repository lets go of its copy; the mounted one is the destination's own
+			if c.reg.DeleteBlob(bg, src, d.Digest) == nil {
+				c.run.Count("mount_sources_deleted_before_reading", 1)
+			}
+		}
 		return err
 	}
 	panic(path)
